@@ -114,6 +114,7 @@ fn relayout(ctx: &Ctx, ch: &mut Ch, toks: &[Tok], context: &[&str], layouts: usi
     Ok(())
 }
 
+pub fn gen_tokens_pub(ch: &mut Ch) -> Vec<Tok> { gen_tokens(ch) }
 fn gen_tokens(ch: &mut Ch) -> Vec<Tok> {
     let fuel = 1 + ch.pick(4);
     let cfg = SynCfg { paren_16: 2, ..SynCfg::default() };
